@@ -245,7 +245,15 @@ func (state *RuntimeState) VIPPollCheckHandler(w http.ResponseWriter, r *http.Re
 		state.writeFailureResponse(w, r, http.StatusPreconditionFailed, "Error parsing form")
 		return
 	}
-	//TODO: check username
+	// The push must have been started for (and approved by) the user of this
+	// session: otherwise anybody holding the poll cookie of an approved
+	// transaction could add the VIP factor to their own session.
+	if pushTransaction.Username != authData.Username {
+		logger.Printf("VIPPollCheckHandler: push transaction of %s polled by %s",
+			pushTransaction.Username, authData.Username)
+		state.writeFailureResponse(w, r, http.StatusPreconditionFailed, "Error parsing form")
+		return
+	}
 	valid, err := state.Config.SymantecVIP.Client.VipPushHasBeenApproved(pushTransaction.TransactionID)
 	if err != nil {
 		logger.Println(err)
